@@ -39,6 +39,8 @@ class _Parameters(NamedTuple):
     :ivar g2_stereo: Stereochemistry of the second graph
     :ivar g1_stereo_changes: Stereochemistry changes of the first graph
     :ivar g2_stereo_changes: Stereochemistry changes of the second graph
+    :ivar g1_bond_changes: Reaction role of the bonds of the first graph
+    :ivar g2_bond_changes: Reaction role of the bonds of the second graph
     """
 
     # Neighborhood
@@ -59,6 +61,10 @@ class _Parameters(NamedTuple):
 
     g1_stereo_changes: Mapping[AtomId, Mapping[Change, list[Stereo]]]
     g2_stereo_changes: Mapping[AtomId, Mapping[Change, list[Stereo]]]
+
+    # bond: reaction role of the bond (None for unchanged bonds)
+    g1_bond_changes: Mapping[frozenset[AtomId], Hashable] = {}
+    g2_bond_changes: Mapping[frozenset[AtomId], Hashable] = {}
 
 
 class _State(NamedTuple):
@@ -149,6 +155,7 @@ def _sanity_check_and_init(
     stereo: bool = False,
     stereo_change: bool = False,
     subgraph: bool = False,
+    bond_change: bool = False,
 ) -> None | tuple[_Parameters, _State]:
     if stereo_change and not stereo:
         raise ValueError("Stereo change is only available for stereo graphs.")
@@ -254,6 +261,16 @@ def _sanity_check_and_init(
                             bond_stereo
                         )
 
+    g1_bond_changes: dict[frozenset[AtomId], Hashable] = {}
+    g2_bond_changes: dict[frozenset[AtomId], Hashable] = {}
+
+    if bond_change:
+        for bond, attrs in g1.bonds_with_attributes.items():
+            g1_bond_changes[bond] = attrs.get("reaction", None)
+
+        for bond, attrs in g2.bonds_with_attributes.items():
+            g2_bond_changes[bond] = attrs.get("reaction", None)
+
     g1_degree = {a: len(n_set) for a, n_set in g1_nbrhd.items()}
     g2_degree = {a: len(n_set) for a, n_set in g2_nbrhd.items()}
 
@@ -270,6 +287,8 @@ def _sanity_check_and_init(
         g2_stereo,
         g1_stereo_changes,
         g2_stereo_changes,
+        g1_bond_changes,
+        g2_bond_changes,
     )
 
     state = _State({}, {}, set(), set(g1_nbrhd), set(), set(g2_nbrhd))
@@ -302,15 +321,19 @@ def vf2pp_all_isomorphisms(
     stereo: bool = False,
     stereo_change: bool = False,
     subgraph: bool = False,
+    bond_change: bool = False,
 ) -> Iterator[dict[AtomId, AtomId]]:
     
     """Find all isomorphisms between two graphs.
 
     Algorithms are based of VF2++.
-    [VF2++ is a fast algorithm for subgraph isomorphism](https://doi.org/10.1016/j.dam.2018.02.018)"""
+    [VF2++ is a fast algorithm for subgraph isomorphism](https://doi.org/10.1016/j.dam.2018.02.018)
+
+    If bond_change is True, the mappings also have to preserve the reaction
+    role (formed, broken, fleeting or unchanged) of every bond."""
 
     if params_state := _sanity_check_and_init(
-        g1, g2, atom_labels, stereo, stereo_change, subgraph
+        g1, g2, atom_labels, stereo, stereo_change, subgraph, bond_change
     ):
         params, state = params_state
     else:
@@ -334,6 +357,8 @@ def vf2pp_all_isomorphisms(
             feasibility_funcs.append(_stereo_feasibility)
         if stereo_change:
             feasibility_funcs.append(_stereo_change_feasibility)
+        if bond_change:
+            feasibility_funcs.append(_bond_change_feasibility)
     else:
         raise ValueError("Invalid combination of parameters.")
 
@@ -517,6 +542,23 @@ def _stereo_change_feasibility(
     if s1 == s2:
         return True
     return False
+
+def _bond_change_feasibility(
+    u: AtomId, v: AtomId, state: _State, params: _Parameters
+) -> bool:
+    """The bonds of u to its already mapped neighbors have the same reaction
+    role as the corresponding bonds of v."""
+    mapping = state.mapping
+    g1_bond_changes = params.g1_bond_changes
+    g2_bond_changes = params.g2_bond_changes
+
+    for n in params.g1_nbrhd[u]:
+        if n in mapping:
+            change1 = g1_bond_changes[frozenset((u, n))]
+            change2 = g2_bond_changes.get(frozenset((v, mapping[n])), None)
+            if change1 != change2:
+                return False
+    return True
 
 def _subgraph_stereo_change_feasibility(
     u: AtomId, v: AtomId, state: _State, params: _Parameters
